@@ -324,6 +324,9 @@ func accessors(c *Ctx, rule string) {
 	const L = "len($vals[$k].Values)"
 	lenPos := func(a map[string]bool) bool { return a["0 < "+L] || a["!("+L+" < 1)"] || a["!("+L+" == 0)"] }
 	lenZero := func(a map[string]bool) bool {
+		if a["len($vals) == 0"] || a["!(0 < len($vals))"] || a["len($vals) < 1"] {
+			return true // an empty map has no entry for k
+		}
 		return a["$vals == nil"] || a["!(maphas($vals, $k))"] || a["!(0 < "+L+")"] || a[L+" < 1"] || a[L+" == 0"]
 	}
 	get := c.kernel("(Values).Get", "*")
